@@ -244,7 +244,7 @@ PLANS["C09"] = dict(
     assumptions=["history-independence of the implementation is decided by the differential run (every output of an interleaved session equals the model's pure function), not by a theorem"],
 )
 PLANS["C11"] = dict(
-    suites=[Suite("tl", 500, 40000)],
+    suites=[Suite("tl", 500, 40000), Suite("tlw", 150, 6000)],
     floors=TL_FLOORS,
     assumptions=["keyframe positions are non-negative and not NaN (total_cmp then agrees with <); -0.0 is excluded"],
 )
@@ -382,8 +382,52 @@ def extra_c07(prop, tier, seed, profiles):
     ended_run = 0       # consecutive `adv` outputs (since the last state change) that reported ended
     first_ended_ns = None
     hist = {"ended-seen": 0, "rest-checked": 0, "rest-checked-inexact": 0}
+    tls, merges, state_slots = {}, {}, []
+    hist["ended-iff-checked"] = 0
+    def total_of(slot):
+        """(total duration as an exact rational or None for infinite, ulp) of the timeline in a slot; None if unknown"""
+        if slot in merges:
+            parts = [total_of(c) for c in merges[slot]]
+            if any(p is None for p in parts): return None
+            if not parts: return (Fraction(0), Fraction(1, 2 ** 40))
+            if any(p[0] is None for p in parts): return (None, max(p[1] for p in parts))
+            return (max(p[0] for p in parts), max(p[1] for p in parts))
+        if slot in tls:
+            t = tl_timing(tls[slot])
+            return None if t is None else (t[1], t[2])
+        return None
+    def ended_iff(L, o):
+        """is_ended ⇔ the state has no timeline or the time in the state is at least the timeline's total duration
+        (exact rationals, 4 ulps of slack at the threshold: binary32 sums round, DESIGN §10 / F-C07b)"""
+        try:
+            meta = o.split(" | ")[1].split(" ")
+            st, ended, ns = int(meta[0]), meta[1] == "1", int(meta[2])
+        except (IndexError, ValueError):
+            return
+        if st >= len(state_slots): return
+        tok = state_slots[st]
+        if tok == "-":
+            hist["ended-iff-checked"] += 1
+            if not ended: fails.append(dict(line=L, directive="relational is_ended is true when the current state has no timeline", op=ops[L], got=o, want="ended", ops=P.block_of(ops, L)))
+            return
+        tot = total_of(tok)
+        if tot is None: return
+        total, ulp = tot
+        p = secs_f32_of_ns(ns)
+        hist["ended-iff-checked"] += 1
+        if ended and (total is None or p < total - 4 * ulp):
+            fails.append(dict(line=L, directive="relational is_ended only when the time in the state has reached the total duration (never for an infinite component)", op=ops[L], got=o, want=f"not ended: time {float(p)} total {'inf' if total is None else float(total)}", ops=P.block_of(ops, L)))
+        if not ended and total is not None and p > total + 4 * ulp:
+            fails.append(dict(line=L, directive="relational is_ended as soon as the time in the state is at least the total duration", op=ops[L], got=o, want=f"ended: time {float(p)} total {float(total)}", ops=P.block_of(ops, L)))
     for L, (op, o) in enumerate(zip(ops, impl)):
         w = op.split(" ")
+        if w[0] == "reset": tls, merges, state_slots = {}, {}, []
+        if w[0] == "tl": tls[w[1]] = w
+        if w[0] == "merge": merges[w[1]] = w[3:3 + int(w[2])]
+        if w[0] == "anim" and w[1] == "0":
+            ns_ = int(w[3]); state_slots = w[len(w) - ns_:]
+        if w[0] in ("anim", "set", "adv") and len(w) > 1 and w[1] == "0" and not o.startswith(("panic", "bad")):
+            ended_iff(L, o)
         if w[0] == "reset": exact, prev, ended_run = False, None, 0
         elif op == "# exactcfg": exact = True
         elif w[0] in ("anim", "set"):
